@@ -2,8 +2,8 @@
 # verify_seed.sh <id-n> <pkg dir relative to repo> : run the seed's demo test in /tmp/vfy with and without patch.diff
 export GOFLAGS=-mod=mod GOPROXY=off GOSUMDB=off GOTOOLCHAIN=local GOWORK=off
 sid=$1; pkg=$2; src=${3:-/tmp/seed/$sid}
-[ -d /tmp/vfy ] || git -C /repo worktree add --detach /tmp/vfy HEAD >/dev/null
-cd /tmp/vfy && git checkout -q -- . && git clean -fdq
+V=${VFY:-/tmp/vfy}; [ -d $V ] || git -C /repo worktree add --detach $V HEAD >/dev/null
+cd $V && git checkout -q -- . && git clean -fdq
 t=$(ls $src/*_test.go | head -1); cp $t $pkg/
 run=$(grep -o 'func Test[A-Za-z0-9_]*' $t | sed 's/func //' | paste -sd'|')
 git apply $src/patch.diff || exit 2
